@@ -15,9 +15,9 @@ import sys
 ROOT = os.path.dirname(os.path.abspath(__file__))
 
 
-def scratch():
+def scratch(idx=0):
     # letters only: up_test_cases filters problem files by substring of the *full path* (digits / words in the path break it)
-    d = "/var/tmp/vkscratch-" + "".join("abcdefghij"[int(c)] for c in str(os.getpid()))
+    d = "/var/tmp/vkscratch-" + "".join("abcdefghij"[int(c)] for c in str(os.getpid())) + "x" + "".join("abcdefghij"[int(c)] for c in str(idx))
     if os.path.exists(d):
         shutil.rmtree(d)
     os.makedirs(d)
@@ -71,23 +71,32 @@ def main():
                 jobs.append((f"seeded/{name}", open(os.path.join(sd, name, "patch.diff")).read(), False, meta.get("expected_checks", [meta["property"]])))
     ok = True
     results = {}
-    for name, diff, rev, checks in jobs:
-        d = scratch()
+
+    def one(ij):
+        idx, (name, diff, rev, checks) = ij
+        d = scratch(idx)
         try:
             try:
                 apply(d, diff, reverse=rev)
             except SystemExit as e:
-                print(f"SKIPPED {name}: patch does not apply ({str(e)[:120]})")
-                results[name] = {"_skipped": {"exit": -1, "violations": 0, "first": "patch does not apply to the current tree"}}
-                continue
-            r = run_checks(d, checks, tier)
+                return name, None, str(e)[:120]
+            return name, run_checks(d, checks, tier), None
         finally:
             shutil.rmtree(d, ignore_errors=True)
-        results[name] = r
-        for c, o in r.items():
-            caught = o["exit"] == 1 and o["violations"] > 0
-            ok = ok and caught
-            print(f"{'CAUGHT' if caught else 'MISSED'}  {name:45s} {c}: exit={o['exit']} violations={o['violations']}  {o['first'][:160]}")
+
+    from concurrent.futures import ThreadPoolExecutor
+
+    with ThreadPoolExecutor(max_workers=int(os.environ.get("SELFTEST_JOBS", "1"))) as ex:
+        for name, r, err in ex.map(one, enumerate(jobs)):
+            if r is None:
+                print(f"SKIPPED {name}: patch does not apply ({err})", flush=True)
+                results[name] = {"_skipped": {"exit": -1, "violations": 0, "first": "patch does not apply to the current tree"}}
+                continue
+            results[name] = r
+            for c, o in r.items():
+                caught = o["exit"] == 1 and o["violations"] > 0
+                ok = ok and caught
+                print(f"{'CAUGHT' if caught else 'MISSED'}  {name:45s} {c}: exit={o['exit']} violations={o['violations']}  {o['first'][:160]}", flush=True)
     os.makedirs(os.path.join(ROOT, "out"), exist_ok=True)
     json.dump(results, open(os.path.join(ROOT, "out", "selftest.json"), "w"), indent=1)
     if mode == "all":
